@@ -40,10 +40,55 @@ NAMES = ['example.test', 'a', 'a-b.example.test', 'xn--bcher-kva.example', 'EXAM
          'localhost', 'bücher.example', '例え.テスト']
 
 
-def flags() -> Any:
+def flags(pool: bool = False) -> Any:
+    if pool:
+        if 'pool' not in _FLAGS:
+            from proxy.plugin.proxy_pool import ProxyPoolPlugin
+            _FLAGS['pool'] = K.make_flags(['--threadless', '--proxy-pool', 'pool.test:3128'], plugins=[ProxyPoolPlugin])
+        return _FLAGS['pool']
     if 'f' not in _FLAGS:
         _FLAGS['f'] = K.make_flags(['--threadless'])
     return _FLAGS['f']
+
+
+def check_via_pool(c: Dict[str, Any], target: bytes, feat: Dict[str, Any]) -> List[Any]:
+    """The same target through an upstream proxy (ProxyPoolPlugin): the only connection goes to the pool member, and the
+    request it receives must still name the host and port the client named."""
+    K.install_real_connect()
+    connect = c['form'] == 'authority'
+    w = K.World(flags(pool=True), max_iters=4000, settle=5)
+    req = (b'CONNECT ' if connect else b'GET ') + target + b' HTTP/1.1\r\nHost: whatever.test\r\n\r\n'
+    client = K.Peer('client', out=req, script=[['send', len(req)]])
+    w.add_client(client)
+    pools: List[K.Peer] = []
+
+    def fac(world: K.World, addr: Tuple[str, int], idx: int) -> Tuple[K.Peer, Optional[Dict[str, Any]]]:
+        o = K.Peer('pool%d' % idx)
+        pools.append(o)
+        return o, None
+    w.origin_factory = fac
+    w.order = ['client', 'pool0']
+    w.run_local()
+    out: List[Any] = []
+    try:
+        f2 = dict(feat, via_pool=True)
+        if w.worker_died:
+            return [('worker-died', dict(f2, exc=(w.exceptions or [('', 'loop-stopped')])[0][1].split(':')[0]), {'target': target}, None)]
+        log = [x for x in w.connect_log if not str(x.get('result', '')).startswith('os-refused')]
+        if [tuple(x['addr']) for x in log] != [('pool.test', 3128)]:
+            return [('pool-member-not-the-only-connection', f2, [x['addr'] for x in log], [('pool.test', 3128)])]
+        line = bytes(pools[0].inbuf).split(b'\r\n', 1)[0]
+        parts = line.split(b' ')
+        exp = expected(c)
+        if len(parts) != 3 or parts[0] != (b'CONNECT' if connect else b'GET'):
+            return [('request-to-pool-member-malformed', f2, line[:120], None)]
+        view = urllib_view(parts[1], connect)
+        default = 443 if connect else 80
+        if view is None or view[0].lower() != exp['host'].lower() or (view[1] if view[1] is not None else default) != exp['port']:
+            out.append(('pool-member-asked-for-another-endpoint', f2, {'target': target, 'forwarded': parts[1]}, (exp['host'], exp['port'])))
+        return out
+    finally:
+        w.teardown()
 
 
 def render_target(c: Dict[str, Any]) -> bytes:
@@ -215,6 +260,8 @@ def evaluate(c: Dict[str, Any]) -> Tuple[List[Any], Dict[str, Any]]:
     info = {'target': target}
     out = check_parser(c, target, feat)
     out += check_system(c, target, feat)
+    if c.get('via_pool') and c['hkind'] == 'name' and not c.get('damage') and c.get('port') != 0:      # port 0: refusing is fine (see check_system)
+        out += check_via_pool(c, target, feat)
     return out, info
 
 
@@ -250,6 +297,8 @@ def cases(draw: Any, damaged: bool) -> Dict[str, Any]:
     userinfo = draw(st.sampled_from([None, None, None, 'user:pass', 'user', 'u%40x:p%3Aq', ':']))
     c = {'form': form, 'hkind': hkind, 'host': host, 'port': port, 'path': path, 'query': query if form == 'absolute' else None,
          'userinfo': userinfo}
+    if not damaged and hkind == 'name' and draw(st.integers(0, 2)) == 0:
+        c['via_pool'] = True
     if not damaged and draw(st.integers(0, 2)) == 0:
         eff = port if port is not None else (443 if form == 'authority' else 80)
         c['prior'] = {'port': draw(st.sampled_from([p_ for p_ in (80, 443, 8080, 8443, 9000) if p_ != eff])),
@@ -277,6 +326,8 @@ def run_shard(spec: Dict[str, Any], seed: int, acc: Any) -> None:
             labs.append('userinfo')
         if c.get('prior'):
             labs.append('after-connection-to-same-host-other-port')
+        if c.get('via_pool') and c['hkind'] == 'name':
+            labs.append('also-through-an-upstream-proxy')
         if c.get('damage'):
             labs.append('damage:' + c['damage'])
         acc.case(c, nt, labels=labs, key=info['target'])
